@@ -176,6 +176,45 @@ def casts(R, ctx):
     R.require(rid, "floor", n >= 3, "", "%d numeric casts in the serializer (floor 3)" % n)
 
 
+def bracket(R, ctx):
+    """Finite table (256 bytes) of the predicate that gates the long-bracket form of a string literal."""
+    from . import c02
+    rid = "C14.bracket"
+    lib = ctx.lib
+    R.rule(rid, "generator::utils::write_string only takes the long-bracket form `[[..]]` under `!value.iter().any(needs_quoted_string)`, and "
+                "needs_quoted_string, expanded over all 256 byte values, is true for CR (0x0D): every Lua/Luau lexer folds CR and CRLF inside a long "
+                "bracket to LF, so a CR written raw comes back as a different string (the quoted form writes `\\r`)")
+    ws = lib.fn("generator::utils::write_string")
+    nq = lib.fn("generator::utils::needs_quoted_string")
+    if not R.require(rid, "anchor", ws is not None and nq is not None, "", "write_string / needs_quoted_string not found"):
+        return
+    fa = ctx.an.fa(ws["path"])
+    lb = [c for c in thir.calls(ws) if c.get("fname") == "write_long_bracket"]
+    if R.require(rid, "anchor:long-bracket-call", len(lb) >= 1, ctx.where(ws), "no call of write_long_bracket in write_string"):
+        for c in lb:
+            gated = False
+            for cond, kind in guards.conditions_of(fa, c):
+                for r in thir.fn_refs(cond):
+                    if (callee_of(r) or "").endswith("needs_quoted_string"):
+                        # polarity: reached on the `then` side of `!any(..)`
+                        neg = any(n.get("k") == "Unary" and n.get("op") == "Not" and any(x is r for x in thir.walk(n)) for n in thir.walk(cond))
+                        gated = gated or (kind == "then" and neg) or (kind in ("else", "early-exit") and not neg)
+            R.ob(rid, "long-bracket-gated", gated, ctx.where(ws, c.get("ln")), "write_long_bracket is reached only when no byte needs the quoted form: %s" % gated)
+    body = thir.body_of(nq)
+    params = [b[0] for prm in nq.get("params", []) for b in thir.pat_bindings(prm["pat"])] if nq.get("params") else []
+    if not params:
+        params = [n["var"] for n in thir.walk(body) if n.get("k") == "Var"][:1]
+    try:
+        table = {b: bool(c02.eval_char_fn(body, params[:1], b, None)) for b in range(256)}
+    except Exception as ex:  # unrecognised shape: fail closed
+        R.require(rid, "anchor:table", False, ctx.where(nq), "needs_quoted_string is not a pure byte predicate this rule can expand: %s" % ex)
+        return
+    R.ob(rid, "needs_quoted_string|0x0D", table[0x0D], ctx.where(nq), "CR forces the quoted form" if table[0x0D] else "CR is allowed raw inside a long bracket: CRLF text comes back with LF only")
+    raw = sorted(b for b, v in table.items() if not v)
+    R.ob(rid, "needs_quoted_string|non-ascii", all(b < 0x80 for b in raw), ctx.where(nq), "bytes allowed raw in a long bracket are ASCII (the output is a UTF-8 String): %s" % (all(b < 0x80 for b in raw)))
+    R.meta["long_bracket_raw_bytes"] = "%d bytes: %s" % (len(raw), "".join(chr(b) if 0x21 <= b <= 0x7E else "\\x%02x" % b for b in raw))
+
+
 def run(R, ctx):
     R.explanation = (
         "Guard-before-act rule on every place where a run-time string becomes a table key or field name, the keyword table of "
@@ -187,3 +226,4 @@ def run(R, ctx):
     keyword(R, ctx)
     total(R, ctx)
     casts(R, ctx)
+    bracket(R, ctx)
